@@ -158,7 +158,7 @@ def check_clamp(run: Run, prog: Program) -> None:
     _report_orderings(run, "C03.ENV", fn, outs, "clamp_to_bounds post-condition "
                       "(L <= r <= U, r outside the exclusion zone or zero, admissible value unchanged)")
     run.extra_cov.setdefault("abstract_paths", {})["clamp_to_bounds"] = len(outs)
-    if len(outs) < 40:
+    if len(outs) < 40 and not _any_bad(outs):
         raise AnalysisError(f"clamp_to_bounds: only {len(outs)} abstract paths")
 
 
@@ -184,6 +184,11 @@ def _report_orderings(run: Run, rule: str, fn: FuncInfo, outs: list[Any], what: 
                       node=fn.node, file=fn.file, ordering=ordering)
     run.sample({"function": fn.qual, "abstract_paths": len(outs), "violating": n_bad,
                 "example_path": [f"{l}={d}" for l, d in zip(outs[0].labels, outs[0].decisions)] if outs else []})
+
+
+def _any_bad(outs: list[Any]) -> bool:
+    """Some abstract path violates its post-condition (the path floors guard vacuous passes only)."""
+    return any(o.kind == "raise" or o.post is not None for o in outs)
 
 
 def _return_of(fn: FuncInfo, out: Any) -> str:
@@ -235,7 +240,7 @@ def check_adjust(run: Run, prog: Program) -> None:
     _report_orderings(run, "C03.ENV", fn, outs, "adjust_exclusion_bounds post-condition (never "
                       "widens, ends outside the zone, collapses to zero only inside the zone)")
     run.extra_cov.setdefault("abstract_paths", {})["adjust_exclusion_bounds"] = len(outs)
-    if len(outs) < 10:
+    if len(outs) < 10 and not _any_bad(outs):
         raise AnalysisError(f"adjust_exclusion_bounds: only {len(outs)} abstract paths")
 
 
@@ -707,7 +712,7 @@ def check_sweep(run: Run, prog: Program, tier: str = "quick") -> None:
     _report_orderings(run, "C03.ENV", fn, outs, "inductive step of the sweep (system bounds contain "
                       "running bounds and target; target zero or outside the zone)")
     run.extra_cov.setdefault("abstract_paths", {})["sweep_step"] = len(outs)
-    if len(outs) < 200:
+    if len(outs) < 200 and not _any_bad(outs):
         raise AnalysisError(f"{fn.qual}: only {len(outs)} abstract paths in the inductive step")
     run.extra_cov["proposal_shapes"] = len(shapes)
     # ---- the loop iterates the proposals argument in the proposals' own total order
@@ -832,6 +837,7 @@ def check_pure(run: Run, prog: Program) -> None:
     v0 = len(run.violations)
     # ---- the computation (and everything it reaches) uses `self` only to call further methods
     for f in reachable_code(prog, calc):
+        run.analysed(f.qual)
         bad: list[ast.AST] = []
         if f.cls is not None and f.params and not is_static(f):
             parents = parent_map(f.node)
@@ -885,6 +891,21 @@ def check_pure(run: Run, prog: Program) -> None:
                   path=p.describe(), instance=f"{ct.qual} :: bucket test on path {_pid(p)}")
     if not n_calls:
         raise AnalysisError(f"{ct.qual}: no path calls _calc_target_power")
+    # a path that does not compute the target is justified by "no bucket": the validation failed
+    # (it fails only for a group without a bucket, see below) or the bucket test said so
+    for p in paths:
+        if p.exit != "return" or p.calls(_is_calc_call):
+            continue
+        no_bucket = any(isinstance(k, tuple) and k[0] == "truthy" and k[1].startswith("self._validate_component_ids(")
+                        and o is False for k, o, *_ in p.conds)
+        for form, key in bucket_forms.items():
+            if p.outcome(key) is (key[0] == "is"):
+                no_bucket = True
+        run.check(no_bucket, "C03.PURE", ct.qual, "return without computing the target",
+                  "the recomputation is skipped for an existing (possibly emptied) bucket: after all "
+                  "proposals expired the stale target would keep counting", node=ct.node, file=ct.file,
+                  path=p.describe(), instance=f"{ct.qual} :: skip justified on path {_pid(p)}")
+    _check_validate(run, prog, ct)
     # the only way to skip the recomputation once a bucket exists is `bucket is None`
     seen_tests: set[tuple[str, int]] = set()
     for p in paths:
@@ -941,6 +962,30 @@ def check_pure(run: Run, prog: Program) -> None:
     run.check(good, "C03.PURE", ct.qual, "return <fresh target>",
               "a value other than the freshly computed target is returned",
               node=ct.node, file=ct.file, path=worst.describe() if worst else None)
+    # must_return_power forces the fresh value out; None means "unchanged": stored target == fresh one
+    if len(ct.params) >= 5:
+        must = ("truthy", ct.params[4])
+        stored_forms = (f"self._target_power[{gid}]", f"self._target_power.get({gid})",
+                        f"self._target_power.get({gid}, None)")
+        for p in paths:
+            calls = p.calls(_is_calc_call)
+            if p.exit != "return" or not calls:
+                continue
+            fresh = u(calls[0].node)
+            is_none = p.ret is None or (isinstance(p.ret, ast.Constant) and p.ret.value is None)
+            if p.outcome(must) is True:
+                run.check(not is_none and u(p.ret) == fresh, "C03.PURE", ct.qual, f"{ct.params[4]} -> return <fresh target>",
+                          f"with {ct.params[4]} set the freshly computed target is not returned",
+                          node=ct.node, file=ct.file, path=p.describe(),
+                          instance=f"{ct.qual} :: forced return on path {_pid(p)}")
+            elif is_none:
+                same = any(p.outcome(("==", frozenset({sf, fresh}))) is True for sf in stored_forms)
+                known = p.outcome(("in", gid, "self._target_power")) is not False
+                run.check(p.outcome(must) is False and same and known, "C03.PURE", ct.qual,
+                          "return None only when the stored target equals the fresh one",
+                          "None (= unchanged) is returned although the freshly computed target need not equal "
+                          "the stored one: the new target is neither handed out nor stored", node=ct.node,
+                          file=ct.file, path=p.describe(), instance=f"{ct.qual} :: unchanged on path {_pid(p)}")
     # a target that is handed out is also the one get_target_power will report
     for p in rets:
         if u(p.ret) not in fresh_texts:
@@ -959,6 +1004,41 @@ def check_pure(run: Run, prog: Program) -> None:
                   instance=f"{ct.qual} :: stored before return on path {_pid(p)}")
     if not n_writes and len(run.violations) == v0:
         raise AnalysisError(f"{ct.qual}: no path stores the computed target")
+
+
+def _check_validate(run: Run, prog: Program, ct: FuncInfo) -> None:
+    """`_validate_component_ids` may refuse (falsy result) only a group that has no bucket yet."""
+    cls = ct.cls
+    val = prog.resolve_method(cls, "_validate_component_ids") if cls is not None else None
+    if val is None:
+        return
+    run.analysed(val.qual)
+    if len(val.params) < 2:
+        raise AnalysisError(f"{val.qual}: expected (self, component_ids, ...)")
+    gid = val.params[1]
+    n = 0
+    for p in sym_paths(inline_helpers(prog, val), opaque=None):
+        if p.exit == "raise":
+            continue
+        falsy = p.ret is None or (isinstance(p.ret, ast.Constant) and not p.ret.value)
+        truthy = isinstance(p.ret, ast.Constant) and bool(p.ret.value)
+        if not falsy and not truthy:
+            raise AnalysisError(f"{val.qual}: result {u(p.ret)} is not a constant")
+        if falsy:
+            n += 1
+            run.check(p.outcome(("in", gid, "self._component_buckets")) is False, "C03.PURE", val.qual,
+                      "refuses only a group without a bucket",
+                      "the validation can fail for a group that already has a bucket: its target would no "
+                      "longer be recomputed (expired proposals keep counting)", node=val.node, file=val.file,
+                      path=p.describe(), instance=f"{val.qual} :: refusal on path {_pid(p)}")
+            if len(val.params) >= 4:
+                sb = val.params[3]
+                none = [p.outcome(("is", frozenset({f"{sb}.{f}", "None"}))) is True
+                        or p.outcome(("truthy", f"{sb}.{f}")) is False for f in ("inclusion_bounds", "exclusion_bounds")]
+                run.check(all(none), "C03.PURE", val.qual, "refuses only while there are no system bounds at all",
+                          "the validation can refuse a group for which system bounds exist: its proposals would "
+                          "never be taken in and no target would ever be computed for it", node=val.node,
+                          file=val.file, path=p.describe(), instance=f"{val.qual} :: no bounds on path {_pid(p)}")
 
 
 def _pid(p: SymPath) -> str:
@@ -1071,6 +1151,7 @@ def check_ord(run: Run, prog: Program) -> None:
 
 def check_repl(run: Run, prog: Program) -> None:
     _calc, ct, paths = _ctp_paths(prog)
+    v0 = len(run.violations)
     gid = ct.params[1]
     own_bucket = {f"self._component_buckets.setdefault({gid},set())", f"self._component_buckets[{gid}]",
                   f"self._component_buckets.setdefault({gid},set[Proposal]())"}
@@ -1101,7 +1182,24 @@ def check_repl(run: Run, prog: Program) -> None:
                       f"<bucket> = self._component_buckets.setdefault({gid}, set())",
                       "the proposal is not stored in this component group's bucket", node=ct.node, file=ct.file,
                       path=p.describe(), instance=f"{ct.qual} :: bucket on path {_pid(p)}")
-    if not n_add:
+    # a given proposal is always taken in (and only a given one) before the target is computed
+    prop = ct.params[2]
+    dunder = {m for m in ("__bool__", "__len__") if prog.resolve_method(prog.cls(f"{BASE}:Proposal"), m) is not None}
+    for p in paths:
+        calls = p.calls(_is_calc_call)
+        if not calls:
+            continue
+        pos = p.effects.index(calls[0])
+        added = any(is_add(e.node) and u(e.node.args[0]) == prop for e in p.effects[:pos] if e.kind == "call")  # type: ignore[attr-defined]
+        o_is, o_truthy = p.outcome(("is", frozenset({prop, "None"}))), (None if dunder else p.outcome(("truthy", prop)))
+        given = True if (o_is is False or o_truthy is True) else False if (o_is is True or o_truthy is False) else None
+        run.check(given is not None and added == given, "C03.REPL", ct.qual,
+                  f"{prop} is added to the bucket iff it is not None",
+                  ("a given proposal is not added to its group's bucket before the target is computed: the "
+                   "actor's latest proposal does not count" if not added else
+                   "something is added to the bucket although no proposal was given / without a None test"),
+                  node=ct.node, file=ct.file, path=p.describe(), instance=f"{ct.qual} :: taken in on path {_pid(p)}")
+    if not n_add and len(run.violations) == v0:
         raise AnalysisError(f"{ct.qual}: expected a bucket.add(...) of the new proposal")
 
 
@@ -1172,7 +1270,10 @@ def check_age(run: Run, prog: Program) -> None:
                       "from its bucket, nothing else changes)")
     run.extra_cov.setdefault("abstract_paths", {})["drop_old_proposals"] = len(outs)
     # the configured maximum age is what the expiry test compares against
+    for f in reachable_code(prog, fn):
+        run.analysed(f.qual)
     ag = prog.func(f"{MAT}:Matryoshka.__init__")
+    run.analysed(ag.qual)
     if len(ag.params) < 2:
         raise AnalysisError(f"{ag.qual}: expected (self, max_proposal_age)")
     want = f"{ag.params[1]}.total_seconds()"
@@ -1187,8 +1288,37 @@ def check_age(run: Run, prog: Program) -> None:
     check_age_actor(run, prog)
 
 
+def _prep_suite(stmts: list[ast.stmt]) -> list[ast.stmt]:
+    """Copy of a suite the path walker can take: literal `for x in (a, b)` loops unrolled (at any
+    depth), `match` statements that cannot leave the iteration made opaque."""
+    out: list[ast.stmt] = []
+    for s in unroll_literal_loops([copy.deepcopy(x) for x in stmts]):
+        if isinstance(s, ast.Match):
+            if any(isinstance(n, (ast.Continue, ast.Break, ast.Return)) for n in ast.walk(s)):
+                raise AnalysisError(f"line {s.lineno}: match statement that leaves the iteration: not modelled")
+            calls = [c for c in ast.walk(s) if isinstance(c, ast.Call) and isinstance(c.func, ast.Attribute)
+                     and c.func.attr in ("drop_old_proposals", "_send_updated_target_power")]
+            out.append(ast.copy_location(ast.Expr(value=ast.Call(
+                func=ast.Name(id="<match>", ctx=ast.Load()), args=[c for c in calls], keywords=[])), s))
+            continue
+        for field in ("body", "orelse", "finalbody"):
+            sub = getattr(s, field, None)
+            if isinstance(sub, list) and sub and isinstance(sub[0], ast.stmt):
+                setattr(s, field, _prep_suite(sub))
+        if isinstance(s, ast.Try):
+            for h in s.handlers:
+                h.body = _prep_suite(h.body)
+        out.append(s)
+    return out
+
+
 def check_age_actor(run: Run, prog: Program) -> None:
-    """The actor expires both proposal groups, with the loop clock, on the timer branch."""
+    """One iteration of the actor's select loop, per symbolic path.  A selected message comes from
+    exactly one receiver, so a path is *consistent with a message from R* when each of its
+    `selected_from(selected, X)` tests has the outcome `X is R`.  On every path consistent with a
+    tick of the expiry timer both proposal groups are expired with the loop clock; on every path
+    consistent with a message of the proposals receiver the proposal is handed to the target
+    computation."""
     rn = prog.func(f"{ACTOR}._run")
     run.analysed(rn.qual)
     node = inline_helpers(prog, rn)
@@ -1197,30 +1327,69 @@ def check_age_actor(run: Run, prog: Program) -> None:
     timers = {t.id for n in body_walk(node) if isinstance(n, (ast.Assign, ast.AnnAssign)) and n.value is not None
               and isinstance(n.value, ast.Call) and "Timer" in u(n.value.func)
               for t in (n.targets if isinstance(n, ast.Assign) else [n.target]) if isinstance(t, ast.Name)}
+    if len(loops) != 1 or not isinstance(loops[0].target, ast.Name):
+        raise AnalysisError(f"{rn.qual}: expected one `async for selected in select(...)` loop")
+    sel = loops[0].target.id
+    select_args = [u(a) for a in loops[0].iter.args]  # type: ignore[attr-defined]
+    res = SymExec(4096, opaque=None).block(SymPath(), _prep_suite(list(loops[0].body)))
+
+    def consistent(p: SymPath, recv: str) -> bool:
+        for _k, o, t, _ln, _w in p.conds:
+            if isinstance(t, ast.Call) and u(t.func).split(".")[-1] == "selected_from" and len(t.args) == 2 \
+                    and u(t.args[0]) == sel and o is not (u(t.args[1]) == recv):
+                return False
+        return True
+
+    # ---- expiry on the timer
+    tick = [a for a in select_args if a in timers]
     groups: list[str] = []
-    ok = False
-    if len(loops) == 1 and isinstance(loops[0].target, ast.Name) and timers:
-        sel = loops[0].target.id
-        select_args = {u(a) for a in loops[0].iter.args}  # type: ignore[attr-defined]
-        arms = [n for n in ast.walk(loops[0]) if isinstance(n, ast.If) and isinstance(n.test, ast.Call)
-                and u(n.test.func).split(".")[-1] == "selected_from" and len(n.test.args) == 2
-                and u(n.test.args[0]) == sel and u(n.test.args[1]) in timers & select_args]
-        for arm in arms:
-            res = SymExec(256, opaque=None).block(SymPath(), unroll_literal_loops(list(arm.body)))
-            per_path = []
-            for p, st in res:
-                calls = p.calls(lambda c: isinstance(c.func, ast.Attribute) and c.func.attr == "drop_old_proposals")
-                per_path.append(st == "next" and sorted(u(c.node.func.value) for c in calls)  # type: ignore[attr-defined]
-                                == ["self._set_op_power_group", "self._set_power_group"]
-                                and all(len(c.node.args) + len(c.node.keywords) == 1  # type: ignore[attr-defined]
-                                        and u((c.node.args + [k.value for k in c.node.keywords])[0]).replace(  # type: ignore[attr-defined]
-                                            "get_running_loop", "get_event_loop") == "asyncio.get_event_loop().time()"
-                                        for c in calls))
-                groups = sorted(u(c.node.func.value) for c in calls)  # type: ignore[attr-defined]
-            ok = ok or (bool(per_path) and all(per_path))
-    run.check(ok, "C03.AGE", rn.qual, "timer branch expires both groups with the loop time",
-              f"expiry is not applied to both proposal groups on the timer branch (found {groups})",
-              node=rn.node, file=rn.file)
+    ok = len(tick) == 1
+    n_paths = 0
+    worst: SymPath | None = None
+    for p, st in (res if ok else []):
+        if not consistent(p, tick[0]) or st == "raise":
+            continue
+        n_paths += 1
+        calls = p.calls(lambda c: isinstance(c.func, ast.Attribute) and c.func.attr == "drop_old_proposals")
+        groups = sorted(u(c.node.func.value) for c in calls)  # type: ignore[attr-defined]
+        good = st in ("next", "continue") and groups == ["self._set_op_power_group", "self._set_power_group"] and all(
+            len(c.node.args) + len(c.node.keywords) == 1  # type: ignore[attr-defined]
+            and u((c.node.args + [k.value for k in c.node.keywords])[0]).replace(  # type: ignore[attr-defined]
+                "get_running_loop", "get_event_loop") == "asyncio.get_event_loop().time()" for c in calls)
+        if not good:
+            ok, worst = False, p
+            break
+    run.check(ok and n_paths > 0, "C03.AGE", rn.qual, "timer branch expires both groups with the loop time",
+              f"expiry is not applied to both proposal groups on every iteration started by the expiry timer (found {groups})",
+              node=rn.node, file=rn.file, path=worst.describe() if worst else None)
+    # ---- a received proposal reaches the target computation
+    recv = "self._proposals_receiver"
+    if recv not in select_args:
+        raise AnalysisError(f"{rn.qual}: {recv} is not selected on")
+    su = prog.resolve_method(rn.cls, "_send_updated_target_power") if rn.cls is not None else None
+    if su is None or len(su.params) < 3:
+        raise AnalysisError(f"{rn.qual}: _send_updated_target_power(self, component_ids, proposal, ...) not found")
+    ok, n_paths, worst = True, 0, None
+    for p, st in res:
+        if not consistent(p, recv) or st == "raise":
+            continue  # an iteration that raises ends the actor's run: nothing is computed at all
+        n_paths += 1
+        handed = False
+        for e in p.effects:
+            if e.kind != "await" or not isinstance(e.node, ast.Await) or not isinstance(e.node.value, ast.Call):
+                continue
+            c = e.node.value
+            if isinstance(c.func, ast.Attribute) and c.func.attr == "_send_updated_target_power" and u(c.func.value) == "self":
+                args = positional(c, su.params[1:])
+                handed = handed or (u(args.get(su.params[1])) == f"{sel}.message.component_ids"
+                                    and u(args.get(su.params[2])) == f"{sel}.message")
+        if not (handed and st in ("next", "continue")):
+            ok, worst = False, p
+            break
+    run.check(ok and n_paths > 0, "C03.REPL", rn.qual, "a received proposal is handed to the target computation",
+              "a message of the proposals receiver does not reach _send_updated_target_power(<its component ids>, "
+              "<the proposal>): the actor's latest proposal does not count", node=rn.node, file=rn.file,
+              path=worst.describe() if worst else None)
 
 
 # ---------------------------------------------------------------------------------------------
@@ -1245,6 +1414,24 @@ CONTROLS = [
     ("narrowing without adjusting to the zone widens past the system bound", MAT,
      "            lower_bound = max(lower_bound, proposal_lower)\n",
      "            lower_bound = min(lower_bound, proposal_lower)\n", "C03.ENV"),
+    ("recomputation skipped when the validation passes", MAT,
+     "        if not self._validate_component_ids(component_ids, proposal, system_bounds):\n            return None",
+     "        if self._validate_component_ids(component_ids, proposal, system_bounds):\n            return None", "C03.PURE"),
+    ("None returned although the target changed", MAT,
+     "            or self._target_power[component_ids] != target_power",
+     "            or self._target_power[component_ids] == target_power", "C03.PURE"),
+    ("a given proposal is not taken in", MAT,
+     "        if proposal is not None:\n            bucket = self._component_buckets.setdefault",
+     "        if proposal is None:\n            bucket = self._component_buckets.setdefault", "C03.REPL"),
+    ("validation refuses a group that has system bounds", MAT,
+     "                system_bounds.inclusion_bounds is None\n                and system_bounds.exclusion_bounds is None",
+     "                system_bounds.inclusion_bounds is None\n                or system_bounds.exclusion_bounds is None", "C03.PURE"),
+    ("timer ticks swallowed by the proposals arm", ACTOR.split(":")[0],
+     "            if selected_from(selected, self._proposals_receiver):",
+     "            if not selected_from(selected, self._proposals_receiver):", "C03.AGE"),
+    ("received proposal dropped by the actor", ACTOR.split(":")[0],
+     "                await self._send_updated_target_power(\n                    proposal.component_ids, proposal, must_send=True\n                )\n",
+     "                pass\n", "C03.REPL"),
 ]
 
 
@@ -1335,6 +1522,47 @@ def structural_controls(prog: Program) -> list[tuple[str, str, str, str, str]]: 
         if len(mx) == 1:
             add(CONTROLS[6][0], MAT, [(mx[0].func, "min")])
             break
+    # -- calculate_target_power: validation test negated / unchanged test flipped / None test flipped
+    val_ifs = [n for n in body_walk(ct.node) if isinstance(n, ast.If) and any(
+        isinstance(c, ast.Call) and isinstance(c.func, ast.Attribute) and c.func.attr == "_validate_component_ids"
+        for c in ast.walk(n.test))]
+    if len(val_ifs) == 1:
+        t = val_ifs[0].test
+        add(CONTROLS[7][0], MAT, [(t, seg(msrc, t.operand) if isinstance(t, ast.UnaryOp) and isinstance(t.op, ast.Not)
+                                   else f"not ({seg(msrc, t)})")])
+    eqs = [n for n in body_walk(ct.node) if isinstance(n, ast.Compare) and len(n.ops) == 1
+           and isinstance(n.ops[0], (ast.Eq, ast.NotEq)) and any("self._target_power" in u(x) for x in [n.left] + n.comparators)]
+    if len(eqs) == 1:
+        c = eqs[0]
+        add(CONTROLS[8][0], MAT, [(c, f"{seg(msrc, c.left)} {'==' if isinstance(c.ops[0], ast.NotEq) else '!='} "
+                                      f"{seg(msrc, c.comparators[0])}")])
+    nones = [n for n in body_walk(ct.node) if isinstance(n, ast.Compare) and len(n.ops) == 1
+             and isinstance(n.ops[0], (ast.Is, ast.IsNot)) and u(n.left) == ct.params[2]
+             and isinstance(n.comparators[0], ast.Constant) and n.comparators[0].value is None]
+    if len(nones) == 1:
+        c = nones[0]
+        add(CONTROLS[9][0], MAT, [(c, f"{ct.params[2]} {'is' if isinstance(c.ops[0], ast.IsNot) else 'is not'} None")])
+    val = prog.cls(f"{MAT}:Matryoshka").methods.get("_validate_component_ids")
+    if val is not None and len(val.params) >= 4:
+        ands = [n for n in body_walk(val.node) if isinstance(n, ast.BoolOp) and isinstance(n.op, ast.And)
+                and all(f"{val.params[3]}." in u(v) and isinstance(v, ast.Compare) for v in n.values)]
+        if len(ands) == 1:
+            add(CONTROLS[10][0], MAT, [(ands[0], "(" + " or ".join(seg(msrc, v) for v in ands[0].values) + ")")])
+    # -- actor: first selected_from test negated; the hand-over of a received proposal removed
+    amod = ACTOR.split(":")[0]
+    asrc = prog.module(amod).source
+    rn = prog.func(f"{ACTOR}._run")
+    tests = [n.test for n in body_walk(rn.node) if isinstance(n, ast.If) and isinstance(n.test, ast.Call)
+             and u(n.test.func).split(".")[-1] == "selected_from" and len(n.test.args) == 2
+             and u(n.test.args[1]) == "self._proposals_receiver"]
+    if len(tests) == 1:
+        add(CONTROLS[11][0], amod, [(tests[0], f"not {seg(asrc, tests[0])}")])
+        arm = next(n for n in body_walk(rn.node) if isinstance(n, ast.If) and n.test is tests[0])
+        sends = [x for b in arm.body for x in ast.walk(b) if isinstance(x, ast.Expr) and isinstance(x.value, ast.Await)
+                 and isinstance(x.value.value, ast.Call) and isinstance(x.value.value.func, ast.Attribute)
+                 and x.value.value.func.attr == "_send_updated_target_power"]
+        if len(sends) == 1:
+            add(CONTROLS[12][0], amod, [(sends[0], "pass")])
     out = []
     for name, module, old, new, rule in CONTROLS:
         if name in built:
